@@ -397,6 +397,37 @@ def lat_from_pick(geo, grid, pick, mode):
     vals = geo["lat"]  # the latitudes the source was given (catalogue: of the lattice directions themselves)
     lc = classes(vals, list(range(len(vals))))
     z = np.asarray(grid.node_z.values)
+    if mode == "band":
+        # the thin band between a row of nodes and the top of a great-circle edge joining two nodes of that row:
+        # the edge bulges polewards over the parallel although both its ends are below it (lattice sources only)
+        if geo["nodes"] is None or geo.get("fine"):
+            return None
+        n = geo["nodes"]
+        bands = []
+        for ci, (L, ids) in enumerate(lc):
+            if abs(L) < 1e-6 or abs(L) > 90.0 - 1e-6:
+                continue
+            nb = ci + 1 if L > 0 else ci - 1
+            if not 0 <= nb < len(lc):
+                continue
+            sides = {(min(f[j], f[(j + 1) % len(f)]), max(f[j], f[(j + 1) % len(f)])) for f in geo["faces"] for j in range(len(f))}
+            for a, b in sorted(sides):
+                if a in ids and b in ids:
+                    c = [n[a][1] * n[b][2] - n[a][2] * n[b][1], n[a][2] * n[b][0] - n[a][0] * n[b][2], n[a][0] * n[b][1] - n[a][1] * n[b][0]]
+                    h = c[0] * c[0] + c[1] * c[1]
+                    if h == 0:
+                        continue
+                    top = math.degrees(math.asin(math.sqrt(h / float(h + c[2] * c[2])))) * (1 if L > 0 else -1)
+                    lim = min(top, lc[nb][0]) if L > 0 else max(top, lc[nb][0])
+                    if abs(lim - L) > 1e-3:
+                        gap = [ids[0], lc[nb][1][0]] if L > 0 else [lc[nb][1][0], ids[0]]
+                        bands.append(((L + lim) / 2.0 if pick % 2 else L + 0.2 * (lim - L), gap, [a, b]))
+        if not bands:
+            return None
+        lat, gap, band = bands[(pick // 2) % len(bands)]
+        if np.min(np.abs(z - math.sin(math.radians(lat)))) < 1e-12:
+            return None
+        return {"t": "lat", "gap": gap, "band": band}, lat
     if mode == "gap":
         if len(lc) < 2:
             return None
@@ -733,21 +764,43 @@ def record_case(case):
     Whatever the tree under test does, a record comes back: '_machinery' marks a case in which the implementation
     could not even provide the source grid or a projectable result (reported as clause Unusable, never a crash)."""
     try:
+        if case.get("seq"):
+            return record_seq(case)
         return _record_case(case)
     except Exception as e:  # noqa
         return {"id": case["id"], "_machinery": "replay: %s: %s" % (type(e).__name__, str(e)[:200])}
 
 
-def _record_case(case):
+def record_seq(case):
+    """A history of selections on ONE grid object (SubsetHist.tla): every step is recorded and judged like a single
+    selection; only the source grid object is shared, so whatever an earlier selection left behind is in play."""
+    geo = source_geometry(case["src"])
+    seed = case.get("seed", 0)
+    shared = {"geo": geo, "grid": build_grid(geo, case["prov"], seed)}
+    out = []
+    for k, op in enumerate(case["seq"]):
+        step = dict(case, id="%s:s%d" % (case["id"], k), op=op, seed=seed, rot=case.get("rot", 0) + k)
+        step.pop("seq")
+        try:
+            out.append(_record_case(step, shared))
+        except Exception as e:  # noqa
+            out.append({"id": step["id"], "_machinery": "replay: %s: %s" % (type(e).__name__, str(e)[:200])})
+    return {"id": case["id"], "_multi": out}
+
+
+def _record_case(case, shared=None):
     import numba
 
     ux = hux.import_ux()
     rec = {"id": case["id"], "prov": "derived" if case["prov"] in ("derived", "file") else "supplied", "err": "", "op": "grid"}
     info = {"prov": case["prov"]}
     try:
-        geo = source_geometry(case["src"])
         seed = case.get("seed", 0)
-        grid = build_grid(geo, case["prov"], seed)
+        if shared:
+            geo, grid = shared["geo"], shared["grid"]
+        else:
+            geo = source_geometry(case["src"])
+            grid = build_grid(geo, case["prov"], seed)
         fresh = build_grid(geo, case["prov"], seed)
     except Exception as e:  # noqa
         return {"id": case["id"], "_machinery": "source: %s: %s" % (type(e).__name__, str(e)[:200])}
@@ -865,6 +918,10 @@ def _record_case(case):
                 runs.append([int(x) for x in np.atleast_1d(grid.get_faces_at_constant_latitude(call[1]["lat"]))])
             rec["faces"] = runs[0]
             rec["runs"] = runs
+            rec["edges_at"] = [int(x) for x in np.atleast_1d(grid.get_edges_at_constant_latitude(call[1]["lat"]))]
+            if case.get("pre_attrs") is not None:
+                pristine = build_grid(geo, case["prov"], seed)
+                rec["fresh_faces"] = [int(x) for x in np.atleast_1d(pristine.get_faces_at_constant_latitude(call[1]["lat"]))]
             return finish(rec, info, stores, case)
         dataset = case.get("dataset")
         if dataset:
@@ -911,6 +968,15 @@ def _record_case(case):
         ctxt["ref"] = None
     if "edge_face_dist" in pre:
         ctxt["parent_efd"] = np.asarray(grid.edge_face_distances.values, dtype=float)
+    # the pristine subset is a reference for derived quantities only if it is the same selection (if it is not,
+    # SelExact reports that; comparing quantities of different selections would only repeat it)
+    try:
+        if ctxt.get("ref") is not None and not np.array_equal(
+            np.asarray(ctxt["ref"]._ds["subgrid_face_indices"].values), np.asarray(g2._ds["subgrid_face_indices"].values)
+        ):
+            ctxt["ref"] = None
+    except Exception:  # noqa
+        ctxt["ref"] = None
     try:
         res, outcomes, st2, errors = project_grid(g2, ctxt, order, first=case.get("acc", ()))
     except Exception as e:  # noqa
@@ -934,7 +1000,14 @@ def _record_case(case):
             rec["data"] = project_data(ux, out, dim, L, dims_in, g2, data["kind"])
         except Exception as e:  # noqa
             return {"id": case["id"], "_machinery": "data projection: %s: %s" % (type(e).__name__, str(e)[:200])}
-    if case.get("read_all") and ctxt.get("ref") is not None:
+    same_selection = False
+    if ctxt.get("ref") is not None:
+        try:
+            same_selection = [int(x) for x in np.asarray(ctxt["ref"]._ds["subgrid_face_indices"].values).ravel()] == rec["res"]["src"]
+        except Exception:  # noqa
+            same_selection = False
+    # (when the selection itself differs from the pristine one, SelExact says so; comparing attributes would only repeat it)
+    if case.get("read_all") and same_selection:
         # every lazily derived public attribute: the result reports what the same selection on a pristine source reports
         names = grid_attributes()
         k0 = case.get("rot", 0) % len(names)
